@@ -125,8 +125,19 @@ def age(s, rng, steps=None, allow=("size", "axis", "radius", "move", "core", "ri
                         continue            # not provided on this shape (no circumsphere ...)
                     if not np.isfinite(cur) or cur <= 0:
                         continue
-                    setattr(s, nm, cur * f)
-                    log.append(f"{nm}*={f:.4g}")
+                    target = cur * f
+                    form = ""
+                    if hasattr(s, "vertices") and not hasattr(cls, "radius") and rng.random() < 0.25:
+                        # the target as a reduced-precision or integer NumPy scalar (a value read from a float32 / int array):
+                        # the shape ends up at that value, and everything it reports must still describe its own vertices.
+                        # (Not for shapes that *keep* a scalar parameter - radius, semi-axes: those take over the scalar's
+                        # type by NumPy's own rules and then compute at that precision, which no statement forbids.)
+                        if rng.random() < 0.6:
+                            target, form = np.float32(target), " [float32 target]"
+                        elif target >= 1.5:
+                            target, form = np.int64(round(target)), " [int64 target]"
+                    setattr(s, nm, target)
+                    log.append(f"{nm}*={f:.4g}{form}")
                 elif kind == "move":
                     nm = moves[int(rng.integers(len(moves)))]
                     size = _size(s)
